@@ -212,6 +212,9 @@ def make_array(legspecs, qtotal, present, dtype=np.float64, labels=None, zero_bl
     data, qdata = [], []
     sl = [l.slices() for l in legspecs]
     stored = list(present) + [z for z in zero_blocks if z not in present]
+    # default: blocks stored in the library's canonical order (lexsort, last leg most significant) with a truthful
+    # `_qdata_sorted = True`, so that code which *trusts* the flag is exercised; `unsorted_qdata`: reversed, flag False
+    stored.sort(key=lambda qi: tuple(reversed(qi)))
     if unsorted_qdata:
         stored = stored[::-1]
     for qi in stored:
@@ -220,7 +223,7 @@ def make_array(legspecs, qtotal, present, dtype=np.float64, labels=None, zero_bl
         qdata.append(qi)
     a._data = data
     a._qdata = np.array(qdata, dtype=np.intp).reshape(len(qdata), len(legspecs))
-    a._qdata_sorted = len(qdata) <= 1
+    a._qdata_sorted = (not unsorted_qdata) or len(qdata) <= 1
     return a, dense
 
 
